@@ -29,7 +29,7 @@ LEVEL_TEXT = (
 LEVEL_NOTE = "Trusted: typing rules of tdomain.py; flow.scan(reverse=True) visits the stacked conditionals from last to first."
 
 
-def run(chk, S: Session):
+def _run_own(chk, S: Session):
     chk.trust("typing rules of tdomain.py", "flow.scan(reverse=True): last element first")
     r1 = chk.rule("R-C03-1", "finalize (under its contract), evaluate_marginals, remove_filtering_distributions, from_grid, rescale_*: time typing", floor=14)
     r2 = chk.rule("R-C03-2", "callers establish finalize's contract: fixed grid (scan invariant + resume), adaptive reporting arms for both smoothers", floor=20)
@@ -292,3 +292,11 @@ def adaptive_rules(chk, S, r2):
                            ADAPT, {**cfg, "arm": arm})
                 env.errors.clear()
             S.absorb(it)
+
+
+def run(chk, S: Session):
+    _run_own(chk, S)
+    from ..harness import borrow
+
+    rb = chk.rule("R-C03-B", "clauses of this statement decided by rules of C05 (what the adaptive routines report when a step ends exactly at, or beyond, a checkpoint)", floor=10)
+    borrow(chk, S, rb, "C05", lambda r, c: r == "R-C05-2")
